@@ -324,6 +324,9 @@ func runParseCase(c *Ctx, expr string, label string) parseOut {
 		c.fail(Failure{Kind: "oracle", Op: "expr " + strRunes(expr), Impl: impl, Note: fmt.Sprintf("SetExpression(%q) did not return normally: %s", expr, o.status)})
 		return o
 	}
+	if c.Prop == "C02" {
+		reuseParse(c, expr, o)
+	}
 	if o.code == "UNKNOWN_SYMBOL" {
 		c.count("lexical-reject")
 		return o // rejected before syntax analysis; nothing to compare at token level
@@ -357,6 +360,9 @@ func runParseCase(c *Ctx, expr string, label string) parseOut {
 }
 
 func replayParse(c *Ctx, op string) {
+	if replaySeq(c, op) {
+		return
+	}
 	f := strings.Fields(op)
 	if len(f) == 2 && f[0] == "expr" {
 		runParseCase(c, string(parseRunes(f[1])), "replay")
